@@ -13,7 +13,7 @@ MODES = {
 }
 DEFAULT_FEATS = ["adhoccounting", "variablelist", "frontend"]
 FEATSETS = {"c_n": [], "c_pm": ["adhoccounting", "adhoccountmodels"]}
-BOUNDS = "diagrams over 4 variables, op sequences of length <= 20; ADFs with <= 4 statements (C04: 2..6 statements) and formulas of depth <= 3; nogoods over 4 positions; interpretation vectors of length <= 5"
+BOUNDS = "diagrams over 4 variables, op sequences of length <= 20 (+6 on the rebuilt store, + a restrict audit of every handle); ADFs with <= 4 statements (C04: 2..6 statements, call histories of length 2-3 on one object; C10: 2..4 statements, labels from a fixed pool, 3 sort modes, 4 reuse-after-sort histories; C11 delivery-order oracle: 6 statements) and formulas of depth <= 3; nogoods over 4 positions; interpretation vectors of length <= 5"
 _cache = {}
 
 
